@@ -645,13 +645,15 @@ def replay(ctx, payload):
         tree.close()
 
 
-LEVEL_TEXT = ("Theorems proved in Lean for every root, path and tree: C18_normal (normal form of normpath: at most two leading slashes, "
-              "'..' only leading and only for relative paths, no '.', no empty component), C18_contain (an accepted path has the root's "
-              "components as a prefix and no '..' after it, for the separator-terminated test), C18_open/C18_walk/C18_chain (every file "
-              "opened, found or walked, also through a chain with sub-folder prefixes, lies below the root), C18_prefix_bug (the string-prefix "
-              "test accepts ../root_evil/s), C18_unify. C18_gen_ok re-checks on every run that the source uses the separator-terminated "
-              "test and that every OS call of RawFileSystem is guarded by _resolve_path. Model tied to the code by exhaustive/random "
-              "differential runs against os.path and against RawFileSystem/FileSystemChain on a real temp tree.")
+LEVEL_TEXT = ("Theorems proved in Lean for every root, path and tree: C18_normal / C18_normal_comps (normal form of normpath: at most two leading "
+              "slashes, '..' only leading and only for relative paths, no '.', no empty component), C18_contain (an accepted path has the root's "
+              "components as a prefix and no '..' after it, for the separator-terminated test), C18_exists / C18_open / C18_get_open / C18_walk / "
+              "C18_chain / C18_chain_walk (every file found, opened or walked, also through a chain with sub-folder prefixes, lies below the "
+              "root), C18_get_consistent (the File handed out names the location that was tested), C18_accepts + C18_root_normal (completeness: "
+              "clean relative names are never rejected), C18_unify (unify_path), and the two defects as model facts: C18_prefix_bug (the "
+              "string-prefix test accepts ../root_evil/s) and C18_get_mismatch_bug. C18_gen_ok re-checks on every run that the source uses the "
+              "separator-terminated test with slash folding and that every OS call of RawFileSystem is guarded by _resolve_path. Model tied to "
+              "the code by exhaustive/random differential runs against os.path and against RawFileSystem/FileSystemChain on a real temp tree.")
 LEVEL_NOTE = ("Trusted: Lean kernel + propext/Classical.choice/Quot.sound; tools/gen_fsys.py; the correspondence harness. Lexical model: "
               "symlinks, Windows ntpath and mount points are not modelled; CPython's posixpath is modelled, not verified.")
 TECHNIQUE = "Lean 4 proof by induction over the component list (normpath stack invariant) + translator for the containment test + differential correspondence on a real directory tree"
